@@ -107,6 +107,8 @@ func checkC08(w *World, c *Check, tier string) {
 	c.stat("architectures", len(gcArches))
 	c.floor("C08.narrow", 10)
 	c.floor("C08.assert", 20)
+	c.floor("C08.root", 60)
+	checkViewRoots(w, c)
 	checkAssertionsTested(w, c, "C08.assert", w.Funcs)
 	c.floor("C08.prefix", 10)
 	seen := map[string]int{}
@@ -592,4 +594,152 @@ func checkViewsOfCopies(w *World, c *Check) {
 	c.stat("view_helper_calls", n)
 	c.stat("view_helper_calls_with_writing_callback", nw)
 	c.floor("C08.viewcopy", 30)
+}
+
+// checkViewRoots (C08.root): what a typed-view helper hands back is the operand itself — the asserted pointer, or the
+// address of the helper's own copy of the asserted value — reinterpreted; directly, through a package helper that
+// returns (a reinterpretation of) what it was given, or through another view helper. A freshly allocated value filled
+// from the operand by some copy routine is not a view: it holds whatever that routine happens to copy (the merge
+// helpers skip current, likes and shares), and both codecs write and read through these views.
+func checkViewRoots(w *World, c *Check) {
+	item := w.itemIface()
+	pr := newProver(w)
+	n := 0
+	isViewHelper := func(f *ssa.Function) bool {
+		if f == nil || f.Signature.Results().Len() != 2 || !isErrorType(f.Signature.Results().At(1).Type()) {
+			return false
+		}
+		_, isPtr := types.Unalias(f.Signature.Results().At(0).Type()).(*types.Pointer)
+		return isPtr && (strings.HasPrefix(f.Name(), "To") || strings.HasPrefix(f.Name(), "reflectItemToType"))
+	}
+	var rootOK func(v ssa.Value, d int) string
+	rootOK = func(v ssa.Value, d int) string {
+		if v == nil || d > 8 {
+			return "a value that cannot be traced"
+		}
+		v = unwrap(v)
+		switch x := v.(type) {
+		case *ssa.Const:
+			return ""
+		case *ssa.Parameter, *ssa.FreeVar:
+			return ""
+		case *ssa.Extract:
+			if _, isTA := x.Tuple.(*ssa.TypeAssert); isTA {
+				return ""
+			}
+			return rootOK(x.Tuple, d+1)
+		case *ssa.TypeAssert:
+			return ""
+		case *ssa.Phi:
+			for _, e := range x.Edges {
+				if why := rootOK(e, d+1); why != "" {
+					return why
+				}
+			}
+			return ""
+		case *ssa.Alloc:
+			// the helper's copy of the asserted value (or of its own parameter): something is stored into it as a whole
+			for _, st := range storesTo(x) {
+				switch unwrap(st.Val).(type) {
+				case *ssa.Extract, *ssa.TypeAssert, *ssa.Parameter, *ssa.UnOp:
+					return ""
+				}
+			}
+			return "a freshly allocated " + typeName(derefType(x.Type())) + " that is not the operand"
+		case *ssa.FieldAddr:
+			return rootOK(x.X, d+1)
+		case *ssa.IndexAddr:
+			return rootOK(x.X, d+1)
+		case *ssa.UnOp:
+			return rootOK(x.X, d+1)
+		case *ssa.MakeInterface:
+			return rootOK(x.X, d+1)
+		case *ssa.Call:
+			cal := x.Common().StaticCallee()
+			if cal == nil {
+				return ""
+			}
+			if !w.InPkg(cal) {
+				return "" // reflect conversions: judged by C08.reflect
+			}
+			if isViewHelper(cal) {
+				return ""
+			}
+			sum := symReturns(pr, cal, 0, map[*ssa.Function]bool{})
+			allParam := len(sum) > 0
+			for _, sv := range sum {
+				if sv.kind != "param" {
+					allParam = false
+				}
+			}
+			if allParam {
+				for _, sv := range sum {
+					if sv.param < len(x.Common().Args) {
+						if why := rootOK(x.Common().Args[sv.param], d+1); why != "" {
+							return why + " (handed to " + funcName(cal) + ")"
+						}
+					}
+				}
+				return ""
+			}
+			// a helper that hands back one of its parameters (a merge routine returning its target), or reinterprets the
+			// address of its own parameter
+			for _, rb := range returnBlocks(cal) {
+				ret := rb.Instrs[len(rb.Instrs)-1].(*ssa.Return)
+				if len(ret.Results) == 0 {
+					continue
+				}
+				r0 := unwrap(ret.Results[0])
+				if prm, isParam := r0.(*ssa.Parameter); isParam {
+					for pi, q := range cal.Params {
+						if q == prm && pi < len(x.Common().Args) {
+							if why := rootOK(x.Common().Args[pi], d+1); why != "" {
+								return why + " (handed to " + funcName(cal) + ", which fills it)"
+							}
+						}
+					}
+					continue
+				}
+				if why := rootOK(r0, d+1); why != "" {
+					return why + " (in " + funcName(cal) + ")"
+				}
+			}
+			return ""
+		}
+		return ""
+	}
+	for _, f := range w.Funcs {
+		if f.Parent() != nil || f.Signature.Recv() != nil || len(f.Params) != 1 || f.Signature.Results().Len() != 2 || f.Synthetic != "" || f.TypeParams().Len() > 0 || f.Blocks == nil {
+			continue
+		}
+		if _, ok := types.Unalias(f.Params[0].Type()).Underlying().(*types.Interface); !ok || item == nil || !types.Implements(f.Params[0].Type(), item) {
+			continue
+		}
+		rp, ok := types.Unalias(f.Signature.Results().At(0).Type()).(*types.Pointer)
+		if !ok || !isErrorType(f.Signature.Results().At(1).Type()) {
+			continue
+		}
+		if rn := namedOf(rp.Elem()); rn == nil || rn.Obj().Pkg() != w.Types {
+			continue
+		}
+		if _, isStruct := rp.Elem().Underlying().(*types.Struct); !isStruct {
+			continue
+		}
+		k := 0
+		for _, rb := range returnBlocks(f) {
+			ret := rb.Instrs[len(rb.Instrs)-1].(*ssa.Return)
+			if len(ret.Results) != 2 || isNilConst(ret.Results[0]) {
+				continue
+			}
+			k++
+			n++
+			key := fmt.Sprintf("%s:return#%d", funcName(f), k)
+			if why := rootOK(ret.Results[0], 0); why != "" {
+				c.bad("C08.root", key, w.InstrPos(ret), fmt.Sprintf("%s hands back %s: not a view of the value it was given but a partial copy of it, so whatever the copy routine leaves out is missing for everything that reads or writes through the view (both codecs do)", funcName(f), why))
+			} else {
+				c.ok("C08.root", key, w.InstrPos(ret), "the operand itself, reinterpreted")
+			}
+		}
+	}
+	c.stat("view_returns", n)
 }
